@@ -36,6 +36,7 @@ type c06Job struct {
 }
 type c06Viol struct {
 	env    []string
+	cold   bool
 	Case   c06Case        `json:"case"`
 	Prev   *c06Case       `json:"prev,omitempty"`
 	Class  string         `json:"class"`
@@ -74,7 +75,8 @@ type c06Verdict struct {
 // process; the verdict is that of the LAST case (earlier ones only set the stage).
 type c06Plan struct {
 	Cases []c06Case `json:"cases"`
-	Env   []string  `json:"env,omitempty"` // additions to the process environment
+	Env   []string  `json:"env,omitempty"`  // additions to the process environment
+	Cold  bool      `json:"cold,omitempty"` // run in the process whose crypto/rand.Reader is the device (no hook)
 }
 
 func addMap(dst, src map[string]int) {
@@ -84,8 +86,9 @@ func addMap(dst, src map[string]int) {
 }
 
 type c06Engine struct {
-	e   *Env
-	bin string
+	e    *Env
+	bin  string
+	cold string // the pre-init binary: plans of the cold families replay there
 }
 
 func c06Key(v *c06Viol) string {
@@ -93,9 +96,13 @@ func c06Key(v *c06Viol) string {
 }
 
 // runCases executes the cases in one fresh process and returns the verdict on the last one.
-func (g *c06Engine) runCases(cs []c06Case, env []string) (*c06Viol, error) {
+func (g *c06Engine) runCases(cs []c06Case, env []string, cold bool) (*c06Viol, error) {
 	var res c06Result
-	p, err := g.e.RunJSON(g.bin, "c06", c06Job{Kind: "explicit", Cases: cs}, &res, 60*time.Second, env...)
+	bin := g.bin
+	if cold && g.cold != "" {
+		bin = g.cold
+	}
+	p, err := g.e.RunJSON(bin, "c06", c06Job{Kind: "explicit", Cases: cs}, &res, 60*time.Second, env...)
 	if err != nil {
 		return nil, err
 	}
@@ -109,7 +116,7 @@ func (g *c06Engine) runCases(cs []c06Case, env []string) (*c06Viol, error) {
 	if last.Class == "" {
 		return nil, nil
 	}
-	v := &c06Viol{env: env, Case: cs[len(cs)-1], Class: last.Class, Detail: last.Detail, Out: last.Out, Log: last.Log}
+	v := &c06Viol{env: env, cold: cold, Case: cs[len(cs)-1], Class: last.Class, Detail: last.Detail, Out: last.Out, Log: last.Log}
 	if len(cs) > 1 {
 		v.Prev = &cs[len(cs)-2]
 	}
@@ -134,7 +141,7 @@ func (g *c06Engine) Reproduce(pl interface{}) (*Violation, error) {
 	if err != nil {
 		return nil, err
 	}
-	v, err := g.runCases(c.Cases, c.Env)
+	v, err := g.runCases(c.Cases, c.Env, c.Cold)
 	if err != nil || v == nil {
 		return nil, err
 	}
@@ -149,7 +156,7 @@ func c06PlanViolation(cs []c06Case, v *c06Viol) *Violation {
 	if len(cs) > 1 {
 		stage += fmt.Sprintf(" (after %d earlier call(s) in the same process, the last one %s)", len(cs)-1, mustJSON(cs[len(cs)-2]))
 	}
-	return &Violation{Property: "C06", Class: v.Class, Key: c06Key(v), Engine: "srcsim-c06", Plan: c06Plan{Cases: cs, Env: v.env},
+	return &Violation{Property: "C06", Class: v.Class, Key: c06Key(v), Engine: "srcsim-c06", Plan: c06Plan{Cases: cs, Env: v.env, Cold: v.cold},
 		Detail: fmt.Sprintf("NewMnemonic(%d, lang %d)%s: %s; outcome %s err=%s; device reads %s", v.Case.N, v.Case.Lang, stage, v.Detail, v.Out.Out, v.Out.Err, mustJSON(v.Log))}
 }
 
@@ -172,7 +179,7 @@ func (g *c06Engine) Minimise(v *Violation) *Violation {
 	}
 	cs := pl.Cases
 	same := func(t []c06Case) bool {
-		got, err := g.runCases(t, pl.Env)
+		got, err := g.runCases(t, pl.Env, pl.Cold)
 		return err == nil && got != nil && got.Class == v.Class
 	}
 	// does the last case fail on its own?
@@ -209,7 +216,7 @@ func (g *c06Engine) Minimise(v *Violation) *Violation {
 	for i := len(cs) - 1; i >= 0; i-- {
 		shrink(i)
 	}
-	got, err := g.runCases(cs, pl.Env)
+	got, err := g.runCases(cs, pl.Env, pl.Cold)
 	if err != nil || got == nil || got.Class != v.Class {
 		return v
 	}
@@ -361,6 +368,7 @@ func CheckC06(e *Env) (int, error) {
 		}
 		for k := range r.Viol {
 			r.Viol[k].env = j.env
+			r.Viol[k].cold = j.cold
 			viols = append(viols, c06Violation(&r.Viol[k]))
 		}
 		if len(samples) < 12 {
@@ -376,7 +384,7 @@ func CheckC06(e *Env) (int, error) {
 		distinct += d
 	}
 	sort.Slice(viols, func(a, b int) bool { return viols[a].Key < viols[b].Key })
-	code, reported := e.Report("C06", viols, &c06Engine{e, src})
+	code, reported := e.Report("C06", viols, &c06Engine{e, src, cold})
 	zero := []string{}
 	for _, p := range []string{"error_at_k0", "error_at_need_minus_1", "error_with_completing_bytes", "hundred_stalls"} {
 		if tot.Probes[p] == 0 {
